@@ -2,6 +2,7 @@ package engine
 
 import (
 	"runtime"
+	"sync"
 	"time"
 	"unsafe"
 
@@ -98,6 +99,38 @@ func InstallHook() {
 	apd.VerifWake = simWake
 	apd.VerifBkEnter = bkEnter
 	apd.VerifBkLeave = bkLeave
+	apd.VerifGo = simGo
+}
+
+// sJoin is the WaitGroup of the concurrent phase in progress; child tasks
+// (go statements of the tree under test) join it.
+var (
+	sJoin     *sync.WaitGroup
+	sChildren uint64
+)
+
+// simGo runs fn as a new simulated task: it waits for its turn like any task,
+// is chosen by the fallback rule (lowest-numbered runnable task) whenever the
+// running task finishes, waits for a lock or parks, and the phase ends only when
+// it has finished too.
+//
+//go:norace
+func simGo(fn func()) {
+	if sMode != modeSched || sJoin == nil {
+		go fn()
+		return
+	}
+	id := len(sTasks)
+	sTasks = append(sTasks, &schedTask{id: id})
+	sInOp = append(sInOp, -1)
+	sChildren++
+	sJoin.Add(1)
+	go func() {
+		defer sJoin.Done()
+		waitTurn(id)
+		fn()
+		finish(id)
+	}()
 }
 
 // Real blocking primitives. A task that enters a bracketed statement keeps the
@@ -373,6 +406,9 @@ func finish(me int) {
 	t.done = true
 	if sMonitor != nil {
 		sMonitor()
+	}
+	if anyParked(me) {
+		settle() // what this task did last may have woken a parked one
 	}
 	to := nextRunnable(me)
 	if to < 0 && anyParked(me) {
